@@ -98,6 +98,11 @@ def mk_module(I, fault="none", key="K"):
     if fault == "none_anc" or fault.startswith("missing.parameter_anc"):
         m.attrs.update(compute_ancillaries=sx.Builtin("compute_ancillaries", lambda I, fd: sx.SDict()),
                        parameter_anc_keys=["anc1"], parameter_anc_names=["Anc 1"], parameter_anc_units=["m"])
+    if fault == "anc_overlap":
+        # an ancillary parameter named like a fit parameter (the documented way to seed its initial value)
+        m.attrs.update(compute_ancillaries=sx.Builtin("compute_ancillaries", lambda I, fd: sx.SDict()),
+                       parameter_anc_keys=["anc1", KEYS[0]], parameter_anc_names=["Anc 1", f"Guess of {KEYS[0]}"],
+                       parameter_anc_units=["m", "kPa"])
     if fault.startswith("missing."):
         del m.attrs[fault.split(".", 1)[1]]
     return m
@@ -318,8 +323,9 @@ def unit_init_defaults(tier=None, seed=None):
     def setup(I):
         cls = I.lookup_qual("nanite.model.core:NaniteFitModel")
         with_anc = I.fork(z3.Bool("module_has_ancillaries"))
-        module = mk_module(I, "none_anc" if with_anc else "none")
-        st.update(module=module, with_anc=with_anc, cls=cls)
+        overlap = with_anc and I.fork(z3.Bool("an_ancillary_is_named_like_a_fit_parameter"))
+        module = mk_module(I, ("anc_overlap" if overlap else "none_anc") if with_anc else "none")
+        st.update(module=module, with_anc=with_anc, cls=cls, overlap=overlap)
         return cls, [module], {}
 
     def post(S, out):
@@ -341,8 +347,37 @@ def unit_init_defaults(tier=None, seed=None):
         # common + own ancillary keys
         f, _ = st["cls"].find("get_anc_parm_keys")
         keys = I.call(sx.BoundMethod(md, f), [], {})
-        want = ["max_indent"] + (["anc1"] if st["with_anc"] else [])
+        own = list(m.attrs.get("parameter_anc_keys", [])) if st["with_anc"] else []
+        want = ["max_indent"] + own
         S.ensure("anc_keys_common_plus_own", list(keys) == want)
+        # ... for every query, whatever was asked before (the answer is a function of the model alone), and asking
+        # does not change the model's own lists or module-level tables
+        nmut = len(I.mutations)
+        keys2 = I.call(sx.BoundMethod(md, f), [], {})
+        S.ensure("anc_keys_same_for_every_query", list(keys2) == want and keys2 is not keys,
+                 case={"first": repr(list(keys)), "second": repr(list(keys2))})
+        core_mod = I.module("nanite.model.core")
+        shared = [v for v in core_mod.env.vars.values() if isinstance(v, (list, sx.SDict))] \
+            + [m.attrs.get("parameter_anc_keys")]
+        S.ensure("anc_keys_query_is_pure", not any(any(mm is v for v in shared if v is not None)
+                                                   for mm in I.mutations[nmut:]))
+        # documented names and units: a fit parameter reports the label / unit its module declares (also when an
+        # ancillary parameter has the same key), ancillaries theirs
+        gn, _ = st["cls"].find("get_parm_name")
+        gu, _ = st["cls"].find("get_parm_unit")
+        case = {"ancillaries": st["with_anc"], "overlap": st["overlap"]}
+        for i, kk in enumerate(m.attrs["parameter_keys"]):
+            S.ensure("fit_parameter_names_as_declared",
+                     I.call(sx.BoundMethod(md, gn), [kk], {}) == m.attrs["parameter_names"][i], witness=kk, case=case)
+            S.ensure("fit_parameter_units_as_declared",
+                     I.call(sx.BoundMethod(md, gu), [kk], {}) == m.attrs["parameter_units"][i], witness=kk, case=case)
+        for i, kk in enumerate(own):
+            if kk in m.attrs["parameter_keys"]:
+                continue
+            S.ensure("ancillary_names_and_units_as_declared",
+                     I.call(sx.BoundMethod(md, gn), [kk], {}) == m.attrs["parameter_anc_names"][i]
+                     and I.call(sx.BoundMethod(md, gu), [kk], {}) == m.attrs["parameter_anc_units"][i], witness=kk,
+                     case=case)
 
     S.run(setup, post)
     return S.finish()
@@ -655,8 +690,8 @@ CANARIES = [
          expect="registry_unchanged_on_rejection"),
     dict(name="deregister pops by name", file="model/logic.py", old="models_available.pop(model.model_key)",
          new="models_available.pop(model.model_name)", expect="deregister_model"),
-    dict(name="valid_axes_y no longer required", file="model/core.py", old='            "valid_axes_y",\n             ]:',
-         new='             ]:', expect="rejected.missing.valid_axes_y"),
+    dict(name="valid_axes_y no longer required", file="model/core.py", old='            "valid_axes_y",\n',
+         new='', expect="rejected.missing.valid_axes_y"),
     dict(name="label uniqueness check dropped", file="model/core.py",
          old="        if len(self.module.parameter_names) \\\n                != len(set(self.module.parameter_names)):",
          new="        if False:", expect="rejected.names_dup"),
